@@ -158,12 +158,17 @@ def oracle(c):
     acc, moved, code = np.asarray(acc, dtype=np.float64), np.asarray(moved), np.asarray(code)
     XP = np.asarray(tg.flat_of({k: np.asarray(v) for k, v in new_forced.items()} | {}, layout, xp=_NP(NKEYS)), dtype=np.float64)   # (NKEYS, D) proposals
     XR = np.asarray(tg.flat_of({k: np.asarray(v) for k, v in new_real.items()}, layout, xp=_NP(NKEYS)), dtype=np.float64)
-    require(bool(np.all(np.asarray(moved_f) != 0)), "harness:forced-run-not-accepted", det)
+    # the forced twin accepts every proposal whose target density is not zero / undefined (BIG = 1e6 cannot lift -inf or NaN);
+    # for the remaining keys the proposal is not observable: there the real run must report acceptance probability 0 and stay put
+    captured = np.asarray(moved_f) != 0
+    require(bool(np.all((acc[~captured] == 0.0) & (moved[~captured] == 0))), "zero-density-proposal-not-rejected", det)
+    if int(captured.sum()) < NKEYS // 4:
+        return {"nt": False, "cls": ["mostly-zero-density-proposals"], "weight": NKEYS}     # e.g. huge steps on a Poisson target: nothing to compare
     # self-check of the capture: accepted real transitions return the captured proposal bit for bit, rejected ones the current point
     acc_mask = moved != 0
     require(np.array_equal(XR[acc_mask], XP[acc_mask]), "proposal-differs-between-twin-runs-or-accepted-state-is-not-the-proposal", det)
     require(bool(np.all(XR[~acc_mask] == x[None, :].astype(np.float32))), "rejected-transition-moved-the-position", det)
-    require(bool(np.all(code == 0)), "unexpected-error-code", lambda: f"codes {np.unique(code).tolist()}; {det()}")
+    require(bool(np.all(code[captured] == 0)), "unexpected-error-code", lambda: f"codes {np.unique(code).tolist()}; {det()}")
     # --- oracle acceptance probability
     lp_x = t.logp(x)
     g_x = t.grad(x)
@@ -171,6 +176,8 @@ def oracle(c):
     F_x = t.user_info(x) if kind == "iwls_user" else t.neg_hess(x)
     worst, n_nt = 0.0, 0
     for i in range(NKEYS):
+        if not captured[i]:
+            continue
         xp = XP[i]
         lp_p = t.logp(xp)
         terms = abs(lp_x) + abs(lp_p)
@@ -218,8 +225,10 @@ def oracle(c):
 
     def stat(n, subseed):
         ks = jax.random.split(jax.random.PRNGKey((c["key_seed"] + 104729 * subseed) % 2**31), n)
-        _, (_, _, _, nf) = run_keys_forced_only(ker, state, ks, s)
+        _, (_, mf, _, nf) = run_keys_forced_only(ker, state, ks, s)
         XPn = np.asarray(tg.flat_of({k: np.asarray(v) for k, v in nf.items()}, layout, xp=_NP(n)), dtype=np.float64)
+        if not bool(np.all(np.asarray(mf) != 0)):
+            return {}          # some proposals hit zero density and are unobservable: a truncated sample would bias the test, so it is skipped
         Z = whiten(XPn)
         out = {"ks_pooled": stats.ks_z(Z.reshape(-1), "norm"), "mean": stats.z_mean(Z.reshape(-1), 0.0, 1.0), "var": stats.z_mean(Z.reshape(-1) ** 2, 1.0, math.sqrt(2.0))}
         if Z.shape[1] > 1:
